@@ -898,7 +898,11 @@ impl PreExp {
             Self::BinaryOperation(_, _, _) | Self::UnaryOperation(_, _)
         )
     }
-    fn to_string_with_precedence(&self, previous_precedence: u8) -> String {
+    /// Stringifies an operand of the binary operator `parent`. Parentheses are added when
+    /// the text would otherwise be parsed back with a different grouping: lower precedence,
+    /// a right operand of equal precedence under a left associative parent (`a - (b - c)`),
+    /// or a right associative left operand of equal precedence (`(a implies b) iff c`).
+    fn to_string_with_precedence(&self, parent: BinOp, is_rhs: bool) -> String {
         match self {
             Self::BinaryOperation(op, lhs, rhs) => {
                 //TODO add implied multiplication like 2x 2(x + y) etc...
@@ -908,9 +912,15 @@ impl PreExp {
                        (number | parenthesis) ~ variable
                    }
                 */
-                let lhs_str = lhs.to_string_with_precedence(op.precedence());
-                let rhs_str = rhs.to_string_with_precedence(op.precedence());
-                if op.precedence() < previous_precedence {
+                let lhs_str = lhs.to_string_with_precedence(**op, false);
+                let rhs_str = rhs.to_string_with_precedence(**op, true);
+                let regroups = op.precedence() == parent.precedence()
+                    && if is_rhs {
+                        parent.is_left_associative()
+                    } else {
+                        !op.is_left_associative()
+                    };
+                if op.precedence() < parent.precedence() || regroups {
                     format!("({} {} {})", lhs_str, **op, rhs_str)
                 } else {
                     format!("{} {} {}", lhs_str, **op, rhs_str)
@@ -979,8 +989,8 @@ impl fmt::Display for PreExp {
             Self::BlockFunction(f) => f.to_string(),
             Self::BlockScopedFunction(f) => f.to_string(),
             Self::BinaryOperation(op, lhs, rhs) => {
-                let rhs = rhs.to_string_with_precedence(op.precedence());
-                let lhs = lhs.to_string_with_precedence(op.precedence());
+                let rhs = rhs.to_string_with_precedence(**op, true);
+                let lhs = lhs.to_string_with_precedence(**op, false);
                 format!("{} {} {}", lhs, **op, rhs)
             }
             Self::CompoundVariable(c) => c.to_string(),
